@@ -306,6 +306,13 @@ pub fn emit(
 
     let params = super::signature::iter_to_string(signature.param_idents());
     let returns = super::signature::iter_to_string(signature.return_idents());
+    // Stubs pass a null argument pointer when there are no arguments;
+    // `from_raw_parts_mut` requires a non-null pointer even for an empty slice.
+    let args_slice = if n_args == 0 {
+        "let args: &mut [crate::object::Arg] = &mut [];".to_string()
+    } else {
+        format!("let args = std::slice::from_raw_parts_mut({ARGS}, {n_args});")
+    };
 
     format!(
         r#"
@@ -313,7 +320,7 @@ pub fn emit(
         if {COUNTS} != {PACK_COUNTS}{counts:?} {{
             return std::mem::transmute({GENERIC_ERROR}::GENERIC)
         }}
-        let args = std::slice::from_raw_parts_mut({ARGS}, {n_args});
+        {args_slice}
 
         {pre}
 
